@@ -124,6 +124,8 @@ def run(args):
         for req, real in by["json"]:
             p = req.split(" ")
             ctx.nontrivial.add(req)
+            if len(p) > 4:
+                hist["class_chains"] = hist.get("class_chains", 0) + 1
             for tok in p[2].split(";"):
                 hist["field_types"][tok[0]] = hist["field_types"].get(tok[0], 0) + 1
             if not real.startswith("ok "):
@@ -147,6 +149,8 @@ def run(args):
         for req, real in by["cmp"]:
             p = req.split(" ")
             ctx.nontrivial.add(req)
+            if len(p) > 5:
+                hist["class_chains"] = hist.get("class_chains", 0) + 1
             _, kv, _ = parse_val(p[3].split(";"))
             _, kw, _ = parse_val(p[4].split(";"))
             exp = "ok " + " ".join(str(x).lower() for x in (kv == kw, kv != kw, kv < kw, kv <= kw, kv > kw, kv >= kw))
@@ -187,5 +191,5 @@ def run(args):
         ctx.coverage_extra = {"histogram": hist, "harness_meta": metas, "oracle_failures": len(failures)}
     ctx.conclude_broken_obligations(failures)
     return ctx.finish(
-        rule="generated model/class declarations (1–5 fields drawn from int, bool, str, float, Option[..], List[..], Dict[str, ..], a nested model, Option of it; field names incl. Rust keywords) with generated values (empty strings/collections, negative and 64-bit-extreme ints, non-ASCII, JSON escapes, None) — json_stringify + from_json round trip; pairs of values differing in one field under four spellings of the Ord derives — six operators; Eq+Hash models as Dict keys; clone then mutate; every subset of 8 derives (rotation of the written order) through the emitter; each program compiled with rustc and run; distinct = distinct request",
+        rule="generated model/class declarations (1–5 fields drawn from int, bool, str, float, Option[..], List[..], Dict[str, ..], a nested model, Option of it; field names incl. Rust keywords; a third of the ordering programs and a quarter of the JSON programs declare the fields over a chain of 2-3 classes related by `extends`) with generated values (empty strings/collections, negative and 64-bit-extreme ints, non-ASCII, JSON escapes, None) — json_stringify + from_json round trip; pairs of values differing in one field under four spellings of the Ord derives — six operators; Eq+Hash models as Dict keys; clone then mutate; every subset of 8 derives (rotation of the written order) through the emitter; each program compiled with rustc and run; distinct = distinct request",
         extra_cov=getattr(ctx, "coverage_extra", None))
